@@ -162,22 +162,7 @@ func checkC08(c *Ctx, r *Report) {
 		"files are written only by the spec writer, the routes writer and the dump command")
 
 	// C08.c config sections copied
-	info30 := w.extType(pkgKin, "Info")
-	infoB := w.extType(pkgHBase, "Info")
-	for _, f := range []struct{ sink, src string }{{"Title", "Title"}, {"Description", "Description"}, {"Version", "Version"}, {"TermsOfService", "TermsOfService"}} {
-		ruleFieldFlow(c, r, ffSpec{Clause: "C08.c", Fn: g30, Owner: info30, Field: f.sink, Must: []string{"definitions.OpenAPIInfo." + f.src}, AllowedFields: []string{"definitions.OpenAPIGeneratorConfig.Info"}, Desc: "3.0 info." + f.sink + " is the configured value"})
-		ruleFieldFlow(c, r, ffSpec{Clause: "C08.c", Fn: g31, Owner: infoB, Field: f.sink, Must: []string{"definitions.OpenAPIInfo." + f.src}, AllowedFields: []string{"definitions.OpenAPIGeneratorConfig.Info"}, Desc: "3.1 info." + f.sink + " is the configured value"})
-	}
-	ruleFieldFlow(c, r, ffSpec{Clause: "C08.c", Fn: g30, Owner: w.extType(pkgKin, "Server"), Field: "URL", Must: []string{"definitions.OpenAPIGeneratorConfig.BaseURL"}, Desc: "3.0 servers[0].url is config.BaseURL"})
-	ruleFieldFlow(c, r, ffSpec{Clause: "C08.c", Fn: g31, Owner: w.extType(pkgV3, "Server"), Field: "URL", Must: []string{"definitions.OpenAPIGeneratorConfig.BaseURL"}, Desc: "3.1 servers[0].url is config.BaseURL"})
-	for _, f := range []string{"Name", "URL"} {
-		ruleFieldFlow(c, r, ffSpec{Clause: "C08.c", Fn: g30, Owner: w.extType(pkgKin, "License"), Field: f, Must: []string{"definitions.OpenAPILicense." + f}, AllowedFields: []string{"definitions.OpenAPIGeneratorConfig.Info", "definitions.OpenAPIInfo.License"}, Desc: "3.0 license." + f})
-		ruleFieldFlow(c, r, ffSpec{Clause: "C08.c", Fn: g31, Owner: w.extType(pkgHBase, "License"), Field: f, Must: []string{"definitions.OpenAPILicense." + f}, AllowedFields: []string{"definitions.OpenAPIGeneratorConfig.Info", "definitions.OpenAPIInfo.License"}, Desc: "3.1 license." + f})
-	}
-	for _, f := range []string{"Name", "URL", "Email"} {
-		ruleFieldFlow(c, r, ffSpec{Clause: "C08.c", Fn: g30, Owner: w.extType(pkgKin, "Contact"), Field: f, Must: []string{"definitions.OpenAPIContact." + f}, AllowedFields: []string{"definitions.OpenAPIGeneratorConfig.Info", "definitions.OpenAPIInfo.Contact"}, Desc: "3.0 contact." + f})
-		ruleFieldFlow(c, r, ffSpec{Clause: "C08.c", Fn: g31, Owner: w.extType(pkgHBase, "Contact"), Field: f, Must: []string{"definitions.OpenAPIContact." + f}, AllowedFields: []string{"definitions.OpenAPIGeneratorConfig.Info", "definitions.OpenAPIInfo.Contact"}, Desc: "3.1 contact." + f})
-	}
+	checkInfoCopied(c, r, "C08.c", g30, g31)
 	// security/model/controller sub-generators are on every success path
 	for _, sub := range []string{"GenerateSecuritySpec", "GenerateModelsSpec", "GenerateControllersSpec"} {
 		ruleMustCallOK(c, r, "C08.c", g30, "generator/swagen/swagen30."+sub, -1, "3.0: "+sub+" ran without error before a document is returned")
@@ -499,4 +484,26 @@ func compositeOf(e ast.Expr) *ast.CompositeLit {
 		return compositeOf(x.X)
 	}
 	return nil
+}
+
+// checkInfoCopied: info / servers / license / contact of the document are the
+// configuration's (shared by C08.c and C20.d).
+func checkInfoCopied(c *Ctx, r *Report, clause, g30, g31 string) {
+	w := c.W
+	info30 := w.extType(pkgKin, "Info")
+	infoB := w.extType(pkgHBase, "Info")
+	for _, f := range []struct{ sink, src string }{{"Title", "Title"}, {"Description", "Description"}, {"Version", "Version"}, {"TermsOfService", "TermsOfService"}} {
+		ruleFieldFlow(c, r, ffSpec{Clause: clause, Fn: g30, Owner: info30, Field: f.sink, Must: []string{"definitions.OpenAPIInfo." + f.src}, AllowedFields: []string{"definitions.OpenAPIGeneratorConfig.Info"}, Desc: "3.0 info." + f.sink + " is the configured value"})
+		ruleFieldFlow(c, r, ffSpec{Clause: clause, Fn: g31, Owner: infoB, Field: f.sink, Must: []string{"definitions.OpenAPIInfo." + f.src}, AllowedFields: []string{"definitions.OpenAPIGeneratorConfig.Info"}, Desc: "3.1 info." + f.sink + " is the configured value"})
+	}
+	ruleFieldFlow(c, r, ffSpec{Clause: clause, Fn: g30, Owner: w.extType(pkgKin, "Server"), Field: "URL", Must: []string{"definitions.OpenAPIGeneratorConfig.BaseURL"}, Desc: "3.0 servers[0].url is config.BaseURL"})
+	ruleFieldFlow(c, r, ffSpec{Clause: clause, Fn: g31, Owner: w.extType(pkgV3, "Server"), Field: "URL", Must: []string{"definitions.OpenAPIGeneratorConfig.BaseURL"}, Desc: "3.1 servers[0].url is config.BaseURL"})
+	for _, f := range []string{"Name", "URL"} {
+		ruleFieldFlow(c, r, ffSpec{Clause: clause, Fn: g30, Owner: w.extType(pkgKin, "License"), Field: f, Must: []string{"definitions.OpenAPILicense." + f}, AllowedFields: []string{"definitions.OpenAPIGeneratorConfig.Info", "definitions.OpenAPIInfo.License"}, Desc: "3.0 license." + f})
+		ruleFieldFlow(c, r, ffSpec{Clause: clause, Fn: g31, Owner: w.extType(pkgHBase, "License"), Field: f, Must: []string{"definitions.OpenAPILicense." + f}, AllowedFields: []string{"definitions.OpenAPIGeneratorConfig.Info", "definitions.OpenAPIInfo.License"}, Desc: "3.1 license." + f})
+	}
+	for _, f := range []string{"Name", "URL", "Email"} {
+		ruleFieldFlow(c, r, ffSpec{Clause: clause, Fn: g30, Owner: w.extType(pkgKin, "Contact"), Field: f, Must: []string{"definitions.OpenAPIContact." + f}, AllowedFields: []string{"definitions.OpenAPIGeneratorConfig.Info", "definitions.OpenAPIInfo.Contact"}, Desc: "3.0 contact." + f})
+		ruleFieldFlow(c, r, ffSpec{Clause: clause, Fn: g31, Owner: w.extType(pkgHBase, "Contact"), Field: f, Must: []string{"definitions.OpenAPIContact." + f}, AllowedFields: []string{"definitions.OpenAPIGeneratorConfig.Info", "definitions.OpenAPIInfo.Contact"}, Desc: "3.1 contact." + f})
+	}
 }
